@@ -282,6 +282,12 @@ def gen_cand_query(rng, b):
         if s == 0 and scenario is not None and v >= 21 and rng.random() < 0.4:
             # aggregates of the anchor tree (its root spans the tree), not necessarily of the sharing provider
             member_of, forbidden_aggs = _gen_aggs(rng, v, 21, 24, 1.0, b, [tree])
+        if s == 0 and scenario is not None and scen_group != 0 and v >= 21 and tree is not None and rng.random() < 0.6:
+            # the sharing provider serves a SUFFIXED group; the unsuffixed group is restricted to an aggregate of the anchor tree
+            # that the sharing provider is not in (whatever narrows "the sharing providers" for one group must not leak into another)
+            only_tree = sorted(set(_aggs_of(b, tree)) - set(_aggs_of(b, scenario)))
+            if only_tree:
+                member_of, forbidden_aggs = [[rng.choice(only_tree)]], []
         in_tree = None
         if v >= 31 and rng.random() < (0.25 if s == 0 and scenario is not None else 0.12 * damp):
             in_tree = rng.choice(wit or b.providers) if rng.random() < 0.93 else 9
@@ -374,7 +380,7 @@ def gen_list_query(rng, b):
     f['required'], f['forbidden'] = _gen_traits(rng, v if v >= 18 else 0, p_req=0.35, p_forb=0.25)
     if v >= 4 and rng.random() < 0.5:
         have = sorted(set(rc for u in b.st.invs for rc in b.st.invs[u])) or b.classes
-        rcs = rng.sample(have, min(rng.choice([1, 1, 2]), len(have)))
+        rcs = rng.sample(have, min(rng.choice([1, 1, 2, 3, 3, 4]), len(have)))
         if rng.random() < 0.02:
             rcs[0] = RC_UNKNOWN
         f['resources'] = [(rc, _pick_amount(rng, b, rc)) for rc in rcs]
